@@ -214,7 +214,12 @@ func c01Scenario(clients []gridClient, depth int) *explore.Scenario {
 				}
 				scfg.CurvePreferences = []tls.CurveID{tls.CurveID(grp)}
 			}
+			// how the handshake is started after the edits: Handshake(), or implicitly by the first Read / Write
+			start := []string{"", "read", "write"}[x.Choose("start", 3)]
 			what := fmt.Sprintf("%s edits=%v hrr=%v resumed=%v", g.Name, names, hrr, resumed)
+			if start != "" {
+				what += " handshake-started-by=" + start
+			}
 			var rawAtStart []byte
 			var u *tls.UConn
 			skip := false
@@ -230,7 +235,7 @@ func c01Scenario(clients []gridClient, depth int) *explore.Scenario {
 					return
 				}
 			}
-			hs := peer.Run(ccfg, g.ID, scfg, peer.Opts{
+			hs := peer.Run(ccfg, g.ID, scfg, peer.Opts{Start: start, Echo: start != "",
 				WrapClient: func(e *peer.Endpoint) {
 					e.OnWrite = func(n int, b []byte) {
 						if n == 0 && u != nil && u.HandshakeState.Hello != nil {
@@ -284,7 +289,7 @@ func c01Scenario(clients []gridClient, depth int) *explore.Scenario {
 				return
 			}
 			r.Nontrivial = true
-			r.Class = fmt.Sprintf("%s|%v|%v|%d", g.Name, names, hrr, len(msgs))
+			r.Class = fmt.Sprintf("%s|%v|%v|%d|%s", g.Name, names, hrr, len(msgs), start)
 			// (1) first record carries exactly Hello.Raw as rebuilt at handshake start
 			if !bytes.Equal(msgs[0], rawAtStart) {
 				r.Violate("C01|wire-differs-from-raw-at-start|"+strings.Join(names, "+"), "%s: first ClientHello on the wire (%d bytes) differs from HandshakeState.Hello.Raw at the first write (%d bytes)", what, len(msgs[0]), len(rawAtStart))
@@ -367,7 +372,7 @@ func c01Scenarios(thorough bool) []*explore.Scenario {
 func init() {
 	register(&Prop{ID: "C01", Level: "model_checking", Variant: "A", Scenarios: c01Scenarios,
 		Run: func(c *explore.Check, thorough bool) {
-			c.Rule = "every non-Golang ID, randomized seeds and custom specs (+ fingerprinted copies in thorough) x every sequence of <=2 (3) documented mutators (SetClientRandom, SetSNI, CipherSuites drop/append, SessionId pattern/empty, Extensions append/remove/edit (ALPN, server_name and signature_algorithms objects edited directly), a second BuildHandshakeState) applied between BuildHandshakeState and Handshake x server {plain, HRR-forcing} x {fresh connection, PSK parrot resuming a cached TLS 1.3 session}: (1) first ClientHello on the wire == Hello.Raw read at the first write, (2) the last edit of each field is visible to the strict parser, (3) after Handshake Hello.Raw == the last ClientHello sent. distinct = (client, edit sequence, server, hellos sent)"
+			c.Rule = "every non-Golang ID, randomized seeds and custom specs (+ fingerprinted copies in thorough) x every sequence of <=2 (3) documented mutators (SetClientRandom, SetSNI, CipherSuites drop/append, SessionId pattern/empty, Extensions append/remove/edit (ALPN, server_name and signature_algorithms objects edited directly), a second BuildHandshakeState) applied between BuildHandshakeState and the start of the handshake {Handshake(), first Read, first Write} x server {plain, HRR-forcing} x {fresh connection, PSK parrot resuming a cached TLS 1.3 session}: (1) first ClientHello on the wire == Hello.Raw read at the first write, (2) the last edit of each field is visible to the strict parser, (3) after Handshake Hello.Raw == the last ClientHello sent. distinct = (client, edit sequence, server, hellos sent)"
 			c.Assumptions = []string{"Hello.Raw 'as rebuilt at handshake start' is read by the transport's first-write callback on the handshaking goroutine"}
 			runAll(c, c01Scenarios(thorough), 0)
 			c.Gate(c.Total.Counters["hrr_completed"] > 100, "non-vacuity: %d completed HRR handshakes", c.Total.Counters["hrr_completed"])
